@@ -609,11 +609,13 @@ pub struct Opts {
     pub slice: bool,
     /// ... and an observation of the inspector state and the context at the node's end (C15, C18)
     pub obs: bool,
+    /// every node's output is paired with a fresh drop-tracked value created by a `map` (C19)
+    pub track: bool,
 }
 
 impl Default for Opts {
     fn default() -> Self {
-        Opts { wrap: true, slice: false, obs: false }
+        Opts { wrap: true, slice: false, obs: false, track: false }
     }
 }
 
@@ -742,6 +744,7 @@ where
 {
     let id = g.id;
     let inner = raw(g, env);
+    let inner = if env.o.track { inner.map(move |v| Val::pair(Val::Tr(crate::track::Tracked::new(id)), v)).boxed() } else { inner };
     let inner = if env.o.wrap && env.o.obs {
         inner
             .map_with(move |v, e| {
